@@ -68,4 +68,20 @@ def search(_payload):
                 r = replay({'fn': 'point_in_bounds', 'args': [float(x), float(y)] + b + [t]})
                 if r['fails']:
                     return {'found': True, 'input': ('point_in_bounds', float(x), float(y), b, t), 'observed': r['observed'], 'expected': r['expected'], 'tried': tried}
+    # call history: the caller keeps ONE bounds list and edits it in place between calls (landscape -> portrait)
+    for t in (0.0, 0.25):
+      travel = [[0.0, 0.0], [10.0, 8.0]]
+      for step, (edit, pt) in enumerate([(None, [9.0, 1.0]), ((1, 0, 6.0), [9.0, 1.0]), ((1, 1, 12.0), [5.0, 11.0]), ((0, 0, 5.5), [5.0, 11.0]), (None, [5.75, 0.0])]):
+        if edit:
+            travel[edit[0]][edit[1]] = edit[2]
+        if True:
+            tried += 1
+            want = oracle('point_in_bounds', [pt[0], pt[1], travel[0][0], travel[0][1], travel[1][0], travel[1][1], t])
+            try:
+                got = pu.point_in_bounds(list(pt), travel, t)
+            except Exception as e:   # noqa
+                return {'found': True, 'input': ('point_in_bounds after in-place edits of the same bounds list', pt, [list(r) for r in travel], t), 'observed': repr(e), 'expected': repr(want), 'tried': tried}
+            if got != want:
+                return {'found': True, 'input': ('point_in_bounds after in-place edits of the same bounds list', pt, [list(r) for r in travel], t),
+                        'observed': repr(got), 'expected': repr(want), 'tried': tried}
     return {'found': False, 'tried': tried}
